@@ -188,7 +188,7 @@ fn xml_attr_desc(b: &[u8], eq: usize) -> String {
 
 const NUM_CLASSES: [&str; 9] = ["zero", "one", "minus1", "plus1", "maxm1", "max", "signbit", "double", "half"];
 const XMLNUM_CLASSES: [&str; 11] = ["0", "1", "minus1", "plus1", "2147483647", "4294967295", "4294967296", "18446744073709551616", "-1", "", "abc"];
-const XMLREF_CLASSES: [&str; 9] = ["A0", "XFE1", "A1048577", "A", "1", "ZZZZZZZZZZ1", "A1:", "A99999999999", ""];
+const XMLREF_CLASSES: [&str; 11] = ["A0", "XFE1", "A1048577", "A", "1", "ZZZZZZZZZZ1", "A1:", "A99999999999", "", "C9:A1", "A9:C1"];
 const PART_CLASSES: [&str; 6] = ["trunc0", "trunc1", "trunc_q", "trunc_h", "trunc_m1", "drop"];
 /// structural faults on one record of a BIFF / BIFF12 stream, with the length field kept consistent:
 /// stray bytes at the end / before the last two payload bytes, missing bytes, duplicated / dropped record
